@@ -681,6 +681,10 @@ func c06Worker(w *W) {
 		c06ManyDiscards(w)
 		return
 	}
+	if w.Spec.Kind == "stalefull" {
+		c06StaleFull(w)
+		return
+	}
 	registerMonitorPlugins()
 	y := installYielder(uint64(w.Spec.Seed), 0, 0)
 	if w.Spec.Kind == "rolling" {
@@ -872,7 +876,7 @@ func init() {
 		ID: "C06", Level: "exploration", MinDistinct: 300, Worker: c06Worker,
 		Rule: "(a) deterministic histories: a gated appender parks the worker inside Append with one item in flight; from a full buffer (cap 100, 100 queued), a nearly full one (cap 101, 99 queued), an empty one and one holding a single item, ALL operation sequences of length 1..5 (quick) / 1..7 (thorough) over {append event, raw write, let the worker take one item} are executed for each of the three policies and compared step-wise and at the end (delivered sequence, discard counter) with an executable queue model; Block-policy calls on a full buffer are issued from a goroutine, must park and are released by a later step. " +
 			"(b) concurrent histories: 2-8 producers x 3-5 operations against a parked consumer and a (nearly) full buffer, then drain; oracles: survivor count and counter, per-producer order, Discard => survivors are a prefix / DiscardOldest => a suffix of each producer's submissions, and porcupine linearizability of the recorded call/return history against the bounded-queue-with-policy model; a call parked inside the library while the gate is closed is a deadlock witness. " +
-			"(d) the asynchronous rolling-file logger (buffer 100, Discard/DiscardOldest, separate on/off) with its worker held inside a file write at a guarded yield point: 250 calls must return and the files must hold exactly the survivors the policy prescribes. (c) free-running producers (1-32) with fast/slow appenders and seeded yields: per-producer delivery order. distinct_nontrivial = number of enumerated (policy,start state,sequence) histories that matched + distinct parameter classes of (b) and (c).",
+			"(d) the asynchronous rolling-file logger (buffer 100, Discard/DiscardOldest, separate on/off) with its worker held inside a file write at a guarded yield point: 250 calls must return and the files must hold exactly the survivors the policy prescribes. (e) a producer is held at the guarded yield point right after it found the buffer full while the queue drains completely; after its release ten items submitted one at a time to the empty buffer must all be delivered and the discard counter must not move (all three policies, with and without a logger-level layout). (c) free-running producers (1-32) with fast/slow appenders and seeded yields: per-producer delivery order. distinct_nontrivial = number of enumerated (policy,start state,sequence) histories that matched + distinct parameter classes of (b) and (c).",
 		Assumptions: []string{"cross-producer real-time order is not promised and not checked except through linearizability of (b)", "porcupine Unknown (timeout) is inconclusive"},
 		Run: func(d *D) {
 			var specs []Spec
@@ -907,6 +911,9 @@ func init() {
 			md := d.NewSpec("manydiscards", "manydiscards", 70, 12)
 			md.TimeoutS = int(d.Pick(300, 600))
 			specs = append(specs, md)
+			sf := d.NewSpec("stalefull", "stalefull", 71, 12)
+			sf.TimeoutS = int(d.Pick(300, 600))
+			specs = append(specs, sf)
 			rs := d.NewSpec("rolling", "rolling-async", 60, 12)
 			rs.N = d.Pick(1, 4)
 			rs.TimeoutS = int(d.Pick(300, 600))
